@@ -204,6 +204,12 @@ class Engine(GenericConcreteEngine[Callable[..., Any]]):
             return result
         match relation:
             case UnaryOperationRelation(operation=operation, target=target):
+                if not isinstance(
+                    operation, (Calculation, Deduplication, Projection, Selection, Slice, Sort)
+                ):
+                    # Custom operations execute their target themselves; do
+                    # not execute it a second time here.
+                    return self.apply_custom_unary_operation(operation, target)
                 target_rows = self.execute(target)
                 match operation:
                     case Calculation(tag=tag, expression=expression):
